@@ -16,7 +16,8 @@ EXPLANATION = (
     "one structural part of `counts clamped to the length`: (R3) the end of every substring range "
     "handed to str::get in the string built-ins is proved <= LEN(s); and one of `VAL(STR$(k)) = k`: (R4) "
     "every numeric result VAL builds is negated exactly on the negative side of its sign test; (R5) UCASE$ / LCASE$ use the whole-string ASCII fold of the standard library, or their own character function maps all 128 ASCII characters as stated (evaluated per character)."
-    " (R6) a built-in function writes to the variables of its call only through the result setter: it leaves its arguments, which are written back to the caller's variables when passed by reference, as it found them.")
+    " (R6) a built-in function writes to the variables of its call only through the result setter: it leaves its arguments, which are written back to the caller's variables when passed by reference, as it found them."
+    " (R7 = C12.R16) the VM does not tell the numeric types apart when it decides on Type mismatch; (R8) LTRIM$ / RTRIM$ trim with the blank character as pattern, not with the std white-space trims; (R9) the code of CHR$ is range-tested before it is narrowed to a byte.")
 NOT_DECIDED = [
     "LEFT$/RIGHT$/MID$ substring equations, INSTR minimality, LEN additivity, UCASE$/LCASE$/LTRIM$/RTRIM$ "
     "laws, SPACE$ = STRING$, VAL(STR$(k)) = k (value-level string arithmetic)",
@@ -483,6 +484,94 @@ def r6_functions_leave_their_arguments_alone(ctx, rule="C17.R6"):
     ctx.require(rule, 20)
 
 
+def _builtin_fns(prog, module):
+    """functions of one built-in of the VM (its run() and the private helpers of its file)"""
+    return [f for f in prog.fns.values() if f.crate == "rusty_basic" and f.body is not None
+            and ("interpreter::built_ins::%s::" % module) in f.path]
+
+
+def r8_trims_remove_blanks_only(ctx, rule="C17.R8"):
+    """LTRIM$ / RTRIM$ remove leading / trailing *blanks* (CHR$(32)).  The std trims without a pattern
+    (`trim`, `trim_start`, `trim_end`) remove every Unicode white space - TAB, CR, LF, form feed - so
+    `LEN(RTRIM$("ab" + CHR$(9)))` is 2 instead of 3 and a line read from a file loses its tab stops.  The two
+    built-ins trim with a pattern that is the blank character."""
+    prog = ctx.prog
+    n = 0
+    for module, what in (("ltrim", "LTRIM$"), ("rtrim", "RTRIM$")):
+        fns = _builtin_fns(prog, module)
+        if not fns:
+            raise CheckError("%s: built-in %s not found" % (rule, module))
+        bare, pat = [], []
+        for f in fns:
+            pv = mir.Prov(f.body)
+            for _b, t in f.body.calls():
+                cp = t.get("cpath") or ""
+                last = cp.split("::")[-1]
+                if "str" not in cp:
+                    continue
+                if last in ("trim", "trim_start", "trim_end", "trim_left", "trim_right", "trim_ascii", "trim_ascii_start", "trim_ascii_end"):
+                    bare.append("%s (line %s)" % (last, t.get("ln")))
+                elif last in ("trim_start_matches", "trim_end_matches", "trim_matches", "strip_prefix", "strip_suffix") and len(t["args"]) > 1:
+                    o = mir.strip_all(pv.of_operand(t["args"][1]))
+                    pat.append((last, o[1] if o[0] == "const" else mir.short_origin(o)))
+        n += 1
+        blank_only = bool(pat) and all(str(c) in ("' '", "32_u8", "' ' as char") or str(c).startswith("' '") for _l, c in pat)
+        ctx.decide(not bare and blank_only, rule, "%s:%s" % (rule, what), fns[0].loc,
+                   "trims with the pattern %s" % [c for _l, c in pat],
+                   "%s is computed with %s: every Unicode white space is removed, not only blanks - `RTRIM$(\"ab\" + CHR$(9))` "
+                   "loses the TAB" % (what, ", ".join(bare) if bare else "a pattern other than the blank: %s" % pat))
+    ctx.require(rule, 2)
+
+
+def r9_chr_code_is_a_byte(ctx, rule="C17.R9"):
+    """`CHR$(k)` for k outside 0..255 is an Illegal function call.  The code is narrowed to a byte with `as u8`,
+    which wraps silently (CHR$(256) would be CHR$(0)): the narrowing is dominated by a range test on the value
+    that is narrowed - comparisons against constants (or a range `contains`) - or goes through a checked
+    conversion (`u8::try_from`)."""
+    prog = ctx.prog
+    fns = _builtin_fns(prog, "chr")
+    if not fns:
+        raise CheckError("%s: built-in chr not found" % rule)
+    n = 0
+    for f in fns:
+        body = f.body
+        pv = mir.Prov(body)
+        for b, blk in enumerate(body.blocks):
+            if blk.get("c"):
+                continue
+            for st in blk["s"]:
+                r = st.get("r", {})
+                if st["k"] != "assign" or r.get("k") != "cast" or r.get("ck") != "IntToInt":
+                    continue
+                if body.locals[st["p"][0]]["ty"] != "u8":
+                    continue
+                n += 1
+                src = mir.strip_all(pv.of_operand(r["o"]))
+                guards = 0
+                for b2, blk2 in enumerate(body.blocks):
+                    if blk2.get("c") or not body.dominates(b2, b):
+                        continue
+                    for st2 in blk2["s"]:
+                        r2 = st2.get("r", {})
+                        if st2["k"] == "assign" and r2.get("k") == "bin" and r2.get("op") in ("Lt", "Le", "Gt", "Ge"):
+                            sides = [mir.strip_all(pv.of_operand(x)) for x in (r2["a"], r2["b"])]
+                            if src in sides:
+                                guards += 1
+                    t2 = blk2["t"]
+                    if t2["k"] == "call" and (t2.get("cpath") or "").endswith("::contains") and t2["args"] and \
+                            mir.strip_all(pv.of_operand(t2["args"][-1])) == src:
+                        guards += 2
+                ctx.decide(guards >= 2, rule, "%s:%s" % (rule, f.name), "%s:%s" % (f.file, st.get("ln")),
+                           "the code is range-tested before it is narrowed to a byte",
+                           "CHR$ narrows its code to a byte with `as u8` without testing its range first (%d comparisons on the "
+                           "narrowed value dominate the cast): CHR$(256) is CHR$(0) and CHR$(-1) is CHR$(255) instead of an "
+                           "Illegal function call" % guards)
+    if not n:
+        # no wrapping cast at all (u8::try_from): nothing to guard
+        ctx.ok(rule, rule + ":no-wrapping-cast", fns[0].loc, "CHR$ narrows its code without a wrapping cast")
+    ctx.require(rule, 1)
+
+
 def run(ctx):
     common.install(ctx)
     r1_accessors(ctx)
@@ -494,3 +583,5 @@ def run(ctx):
     # SPACE$(n) = STRING$(n, 32) however the 32 is supplied: the VM does not tell the numeric types apart
     from . import c12
     c12.r16_numeric_types_are_interchangeable_at_run_time(ctx, "C17.R7")
+    r8_trims_remove_blanks_only(ctx)
+    r9_chr_code_is_a_byte(ctx)
